@@ -469,6 +469,23 @@ md_match_p(struct md_s md, bituint31_t m, bitint31_t d)
 }
 
 
+static echs_instant_t
+until_in_scale(rrulsp_t rr)
+{
+/* UNTIL is a Gregorian instant, the fillers compare it with candidates
+ * in the rule's own scale, so convert it there */
+	echs_instant_t u = rr->until;
+
+	if (rr->scale != SCALE_GREGORIAN && !echs_max_instant_p(u)) {
+		const echs_instant_t tmp = echs_instant_rescale(u, rr->scale);
+
+		if (LIKELY(!echs_nul_instant_p(tmp))) {
+			u = echs_instant_detach_scale(tmp);
+		}
+	}
+	return u;
+}
+
 /* recurrence helpers */
 static void
 fill_yly_ywd(
@@ -970,6 +987,7 @@ rrul_fill_yly(echs_instant_t *restrict tgt, size_t nti, rrulsp_t rr)
 	const echs_scale_t srcsca = rr->scale;
 	const echs_instant_t protr = echs_instant_rescale(*tgt, srcsca);
 	const echs_instant_t proto = echs_instant_detach_scale(protr);
+	const echs_instant_t until = until_in_scale(rr);
 	unsigned int y = proto.y;
 	/* unrolled month bui31 bitset */
 	unsigned int m[12U];
@@ -1128,7 +1146,7 @@ rrul_fill_yly(echs_instant_t *restrict tgt, size_t nti, rrulsp_t rr)
 						.ms = proto.ms,
 					};
 
-					if (UNLIKELY(echs_instant_lt_p(rr->until, x))) {
+					if (UNLIKELY(echs_instant_lt_p(until, x))) {
 						goto fin;
 					}
 					if (UNLIKELY(echs_instant_lt_p(x, proto))) {
@@ -1154,6 +1172,7 @@ rrul_fill_mly(echs_instant_t *restrict tgt, size_t nti, rrulsp_t rr)
 	const echs_scale_t srcsca = rr->scale;
 	const echs_instant_t protr = echs_instant_rescale(*tgt, srcsca);
 	const echs_instant_t proto = echs_instant_detach_scale(protr);
+	const echs_instant_t until = until_in_scale(rr);
 	unsigned int y = proto.y;
 	int m = proto.m;
 	/* unrolled day bi31, we use 2 * 31 because by monthdays can
@@ -1306,7 +1325,7 @@ rrul_fill_mly(echs_instant_t *restrict tgt, size_t nti, rrulsp_t rr)
 						.ms = proto.ms,
 					};
 
-					if (UNLIKELY(echs_instant_lt_p(rr->until, x))) {
+					if (UNLIKELY(echs_instant_lt_p(until, x))) {
 						goto fin;
 					}
 					if (UNLIKELY(echs_instant_lt_p(x, proto))) {
@@ -1332,6 +1351,7 @@ rrul_fill_wly(echs_instant_t *restrict tgt, size_t nti, rrulsp_t rr)
 	const echs_scale_t srcsca = rr->scale;
 	const echs_instant_t protr = echs_instant_rescale(*tgt, srcsca);
 	const echs_instant_t proto = echs_instant_detach_scale(protr);
+	const echs_instant_t until = until_in_scale(rr);
 	unsigned int y = proto.y;
 	unsigned int m = proto.m;
 	unsigned int d = proto.d;
@@ -1465,7 +1485,7 @@ rrul_fill_wly(echs_instant_t *restrict tgt, size_t nti, rrulsp_t rr)
 				if (UNLIKELY(echs_instant_lt_p(x, proto))) {
 					continue;
 				}
-				if (UNLIKELY(echs_instant_lt_p(rr->until, x))) {
+				if (UNLIKELY(echs_instant_lt_p(until, x))) {
 					goto fin;
 				} else if (!(m_mask & (1U << this_m))) {
 					/* skip this day, the rest of the week
@@ -1490,6 +1510,7 @@ rrul_fill_dly(echs_instant_t *restrict tgt, size_t nti, rrulsp_t rr)
 	const echs_scale_t srcsca = rr->scale;
 	const echs_instant_t protr = echs_instant_rescale(*tgt, srcsca);
 	const echs_instant_t proto = echs_instant_detach_scale(protr);
+	const echs_instant_t until = until_in_scale(rr);
 	unsigned int y = proto.y;
 	unsigned int m = proto.m;
 	unsigned int d = proto.d;
@@ -1620,7 +1641,7 @@ rrul_fill_dly(echs_instant_t *restrict tgt, size_t nti, rrulsp_t rr)
 			};
 			if (UNLIKELY(echs_instant_lt_p(x, proto))) {
 				continue;
-			} else if (UNLIKELY(echs_instant_lt_p(rr->until, x))) {
+			} else if (UNLIKELY(echs_instant_lt_p(until, x))) {
 				goto fin;
 			}
 			/* attach scale and convert back to greg */
